@@ -20,6 +20,7 @@ class GenEvents:
         self.counts = {'do_codegen': 0, 'do_compile': 0, 'lambdify': 0, 'func_builder': 0,
                        'audit_compile': 0, 'audit_exec': 0}
         self.log = []           # (thread name, function, detail)
+        self.completed = []     # (id(algebra), codegen function name, key pattern) of generations that returned
         self.evaluations = dict.fromkeys(self.counts, 0)   # lifetime evaluation counts (never reset)
         self._orig = {}
 
@@ -56,7 +57,17 @@ class GenEvents:
                 self.counts[name] += 1
                 self.evaluations[name] += 1
                 self.log.append((threading.current_thread().name, name, detail))
-            return orig(*a, **kw)
+            out = orig(*a, **kw)
+            if detail is not None:
+                try:
+                    with self.lock:
+                        # the cache is a dict keyed by the operands' key containers: a range and a tuple with the same blades are different
+                        # entries on the pinned tree as well, so the container type is part of the identity recorded here
+                        kinds = tuple(type(m.keys()).__name__ for m in a[1:])
+                        self.completed.append((id(a[1].algebra), id(a[0]), detail[0], detail[1], kinds))
+                except Exception:
+                    pass
+            return out
         return wrapper
 
     @staticmethod
